@@ -28,11 +28,11 @@ theorem getD_mem {κ ν : Type} [DecidableEq κ] {k : κ} {l : AList κ (List ν
   | none => rw [hl] at h; cases h
   | some v => rw [hl] at h; exact ⟨v, AList.lookup_some_mem hl, h⟩
 
-theorem oinv_of_oinvB (E : Env S Unit Rat) (s : St S Unit Rat) (h : oinvB E s = true) : OInv E s := by
+theorem oinv_of_oinvB (E : Env S Unit Rat) (s : St S Unit Rat) (h : oinvB E s = true) : OInv E s.heapOf s := by
   unfold oinvB at h
   simp only [Bool.and_eq_true] at h
   obtain ⟨⟨h1, h2⟩, h3⟩ := h
-  refine ⟨?_, ?_, ?_⟩
+  refine ⟨?_, ?_, ?_, fun _ _ => rfl⟩
   · intro nt e he k v hk
     obtain ⟨hl, hmem, hel⟩ := getD_mem (k := nt) (l := s.heaps) he
     have a1 := List.all_eq_true.mp h1 (nt, hl) hmem
@@ -54,7 +54,7 @@ theorem oinv_of_oinvB (E : Env S Unit Rat) (s : St S Unit Rat) (h : oinvB E s = 
     have a3 := List.all_eq_true.mp a2 i (List.mem_range.mpr hil)
     simp only [hai, ha] at a3
     obtain ⟨kv, hkv, hdec⟩ := List.any_eq_true.mp a3
-    exact ⟨kv.1, by simpa using hdec⟩
+    exact Or.inl ⟨kv.1, by simpa using hdec⟩
 
 /-- decidable sufficient condition for acyclicity with a given rank -/
 theorem acyclic_of_all (G : TT S Unit) (rank : NT S Unit → Nat)
